@@ -6,7 +6,7 @@ import pathlib
 
 from vf.cond import cond
 
-from .common import STUB_INTERN, Environment, LiquidError, drive, in_alpha, outcome
+from .common import STUB_INTERN, Environment, LiquidError, concrete_int, drive, in_alpha, outcome
 
 from liquid2 import CachingFileSystemLoader, ChoiceLoader, FileSystemLoader, PackageLoader  # noqa: E402
 from liquid2.exceptions import TemplateNotFoundError  # noqa: E402
@@ -92,6 +92,26 @@ def k_fs_resolve(name: str, ext: bool, two: bool, N: int) -> bool:
     roots = [ROOT1, ROOT2] if two else [ROOT1]
     loader = FileSystemLoader(roots if two else ROOT1, ext=".liquid" if ext else None)
     return _resolve_ok(loader, roots, name)
+
+
+SIB_ALPHA = "t~.a"
+
+
+@cond(
+    pre=["len(suffix) <= 2", "in_alpha(suffix, SIB_ALPHA)", "0 <= ups <= 2"],
+    timeout=200,
+    shard={"ext": [False, True]},
+    covers="names that climb out of the search directory and re-enter a *sibling* whose name starts with the search directory's name (../t~/a, ../ta.liquid, ../../srv/tt): rejected - containment is by path component, never by character prefix",
+    bounds="name = '../' x ups + (root base name 't' or 'srv/t') + suffix over {t ~ . a} len <= 2 + optional '/a'; fs stub: everything exists",
+    stubs=("Path.exists/is_file := True for every path", STUB_INTERN),
+    grid=lambda: [(s, u, t, e) for s in ("", "t", "~", "a", ".a", "t/") for u in (0, 1, 2) for t in (False, True) for e in (False, True)],
+)
+def k_fs_sibling(suffix: str, ups: int, tail: bool, ext: bool) -> bool:
+    ups = concrete_int(ups, 0, 2)
+    base = ["t", "t", "srv/t"][ups]
+    name = "../" * ups + base + suffix + ("/a" if tail else "")
+    loader = FileSystemLoader(ROOT1, ext=".liquid" if ext else None)
+    return _resolve_ok(loader, [ROOT1], name)
 
 
 @cond(
